@@ -1,0 +1,290 @@
+//! Accessors and event emitters for the "space" verification family (cfg mmtk_verif only):
+//! C24 (side-metadata tables of one configuration), C28 (page resources), C31 (address-to-space
+//! resolution). Nothing in here changes the behaviour of MMTk; the emitters are no-ops unless a
+//! harness installed an event sink.
+
+use crate::policy::space::Space;
+use crate::util::metadata::side_metadata::SideMetadataSpec;
+use crate::util::Address;
+use crate::vm::VMBinding;
+use crate::MMTK;
+
+/// What one space of the plan looks like from outside.
+pub struct VerifSpaceInfo {
+    pub name: &'static str,
+    /// false for spaces without a `CommonSpace` (MallocSpace): no address range, no page resource.
+    pub has_common: bool,
+    pub start: usize,
+    pub extent: usize,
+    pub contiguous: bool,
+    /// Raw descriptor word and what it decodes to.
+    pub descriptor: usize,
+    pub desc_contiguous: bool,
+    pub desc_index: usize,
+    pub desc_start: usize,
+    pub desc_extent: usize,
+    /// Raw counters of the page resource (no metadata estimate added).
+    pub pr_reserved: usize,
+    pub pr_committed: usize,
+    /// The `SideMetadataContext` of the space.
+    pub global_specs: Vec<SideMetadataSpec>,
+    pub local_specs: Vec<SideMetadataSpec>,
+}
+
+fn info_of<VM: VMBinding>(space: &dyn Space<VM>) -> VerifSpaceInfo {
+    use crate::policy::marksweepspace::malloc_ms::MallocSpace;
+    if let Some(ms) = space.downcast_ref::<MallocSpace<VM>>() {
+        let (g, l, d) = ms.verif_metadata_context();
+        return VerifSpaceInfo {
+            name: space.get_name(),
+            has_common: false,
+            start: 0,
+            extent: 0,
+            contiguous: false,
+            descriptor: d.verif_raw(),
+            desc_contiguous: d.is_contiguous(),
+            desc_index: d.get_index(),
+            desc_start: 0,
+            desc_extent: 0,
+            pr_reserved: 0,
+            pr_committed: 0,
+            global_specs: g,
+            local_specs: l,
+        };
+    }
+    let c = space.common();
+    let d = c.descriptor;
+    let pr = space.get_page_resource();
+    VerifSpaceInfo {
+        name: space.get_name(),
+        has_common: true,
+        start: c.start.as_usize(),
+        extent: c.extent,
+        contiguous: c.contiguous,
+        descriptor: d.verif_raw(),
+        desc_contiguous: d.is_contiguous(),
+        desc_index: d.get_index(),
+        desc_start: if d.is_contiguous() {
+            d.get_start().as_usize()
+        } else {
+            0
+        },
+        desc_extent: if d.is_contiguous() {
+            d.get_extent()
+        } else {
+            0
+        },
+        pr_reserved: pr.reserved_pages(),
+        pr_committed: pr.committed_pages(),
+        global_specs: c.metadata.global.clone(),
+        local_specs: c.metadata.local.clone(),
+    }
+}
+
+/// Every space of the plan, in `for_each_space` order.
+pub fn verif_space_table<VM: VMBinding>(mmtk: &MMTK<VM>) -> Vec<VerifSpaceInfo> {
+    let mut out = vec![];
+    mmtk.get_plan()
+        .for_each_space(&mut |space: &dyn Space<VM>| out.push(info_of(space)));
+    out
+}
+
+/// (base address, reserved bytes) of the side-metadata address range.
+pub fn verif_side_metadata_reservation() -> (usize, usize) {
+    (
+        crate::util::metadata::side_metadata::global_side_metadata_base_address().as_usize(),
+        crate::util::metadata::side_metadata::side_metadata_reserved_bytes(),
+    )
+}
+
+/// The core side-metadata spec chains as `spec_defs.rs` lays them out (global, local), and the two
+/// base offsets offered to VM bindings (global, local).
+pub fn verif_core_side_specs() -> (Vec<SideMetadataSpec>, Vec<SideMetadataSpec>, usize, usize) {
+    use crate::util::metadata::side_metadata::spec_defs::*;
+    use crate::util::metadata::side_metadata::{
+        GLOBAL_SIDE_METADATA_VM_BASE_OFFSET, LOCAL_SIDE_METADATA_VM_BASE_OFFSET,
+    };
+    (
+        vec![VO_BIT, SFT_DENSE_CHUNK_MAP_INDEX, CHUNK_MARK],
+        vec![
+            MALLOC_MS_ACTIVE_PAGE,
+            MS_OFFSET_MALLOC,
+            IX_LINE_MARK,
+            IX_BLOCK_DEFRAG,
+            IX_BLOCK_MARK,
+            MS_BLOCK_MARK,
+            MS_BLOCK_NEXT,
+            MS_BLOCK_PREV,
+            MS_BLOCK_LIST,
+            MS_BLOCK_SIZE,
+            MS_BLOCK_TLS,
+            MS_FREE,
+            MS_LOCAL_FREE,
+            MS_THREAD_FREE,
+            COMPRESSOR_MARK,
+            COMPRESSOR_OFFSET_VECTOR,
+        ],
+        GLOBAL_SIDE_METADATA_VM_BASE_OFFSET,
+        LOCAL_SIDE_METADATA_VM_BASE_OFFSET,
+    )
+}
+
+/// The six per-object metadata specs as the binding declared them: (name, Some(side spec) | None
+/// when in the header, header bit offset, number of bits).
+pub fn verif_vm_metadata_specs<VM: VMBinding>(
+) -> Vec<(&'static str, Option<SideMetadataSpec>, isize, usize)> {
+    use crate::util::metadata::MetadataSpec;
+    use crate::vm::ObjectModel;
+    let f = |n: &'static str, s: &MetadataSpec| match s {
+        MetadataSpec::OnSide(ss) => (n, Some(*ss), 0, 1usize << ss.log_num_of_bits),
+        MetadataSpec::InHeader(h) => (n, None, h.bit_offset, h.num_of_bits),
+    };
+    #[allow(unused_mut)]
+    let mut v = vec![
+        f("log", VM::VMObjectModel::GLOBAL_LOG_BIT_SPEC.as_spec()),
+        f(
+            "fwdptr",
+            VM::VMObjectModel::LOCAL_FORWARDING_POINTER_SPEC.as_spec(),
+        ),
+        f(
+            "fwdbits",
+            VM::VMObjectModel::LOCAL_FORWARDING_BITS_SPEC.as_spec(),
+        ),
+        f("mark", VM::VMObjectModel::LOCAL_MARK_BIT_SPEC.as_spec()),
+        f(
+            "losmark",
+            VM::VMObjectModel::LOCAL_LOS_MARK_NURSERY_SPEC.as_spec(),
+        ),
+    ];
+    #[cfg(feature = "object_pinning")]
+    v.push(f("pin", VM::VMObjectModel::LOCAL_PINNING_BIT_SPEC.as_spec()));
+    v
+}
+
+/// The raw descriptor word the VM map returns for `addr`.
+pub fn verif_vm_map_descriptor(addr: Address) -> usize {
+    crate::mmtk::VM_MAP
+        .get_descriptor_for_address(addr)
+        .verif_raw()
+}
+
+/// (heap_start, heap_end, log_space_extent, force_use_contiguous_spaces, log_address_space,
+/// MAX_SPACES) of the layout in use.
+pub fn verif_vm_layout() -> (usize, usize, usize, bool, usize, usize) {
+    let l = crate::util::heap::layout::vm_layout::vm_layout();
+    (
+        l.heap_start.as_usize(),
+        l.heap_end.as_usize(),
+        l.log_space_extent,
+        l.force_use_contiguous_spaces,
+        l.log_address_space,
+        crate::util::heap::layout::heap_parameters::MAX_SPACES,
+    )
+}
+
+/// Which SFT map implementation `create_sft_map` selects in this build and layout.
+pub fn verif_sft_map_kind() -> &'static str {
+    let l = crate::util::heap::layout::vm_layout::vm_layout();
+    if cfg!(target_pointer_width = "32") || !l.force_use_contiguous_spaces {
+        "sparse"
+    } else if cfg!(any(feature = "malloc_mark_sweep", feature = "vm_space")) {
+        "dense"
+    } else {
+        "space"
+    }
+}
+
+fn page_fields(a: Address) -> String {
+    let x = a.as_usize();
+    format!(
+        "\"c\":{},\"p\":{},\"o\":{}",
+        x >> 22,
+        (x >> 12) & 1023,
+        x & 4095
+    )
+}
+
+/// `Space::acquire` obtained `pages` pages at `start` from its page resource (emitted while the
+/// space's acquire lock is held, after the page resource returned).
+pub fn verif_emit_acquire(space: &'static str, start: Address, pages: usize, new_chunk: bool) {
+    crate::verif::emit(|| {
+        format!(
+            "\"ev\":\"PRAcquire\",\"sp\":\"{}\",{},\"n\":{},\"newChunk\":{}",
+            space,
+            page_fields(start),
+            pages.min(1 << 30),
+            new_chunk
+        )
+    });
+}
+
+/// A page resource is about to take back `pages` pages at `first` (emitted before the pages become
+/// available again, under the page resource's lock where it has one). `kind`: "freelist" | "block".
+pub fn verif_emit_release(kind: &'static str, first: Address, pages: usize) {
+    crate::verif::emit(|| {
+        format!(
+            "\"ev\":\"PRRelease\",\"kind\":\"{}\",{},\"n\":{}",
+            kind,
+            page_fields(first),
+            pages.min(1 << 30)
+        )
+    });
+}
+
+/// A page resource is about to take back every page it granted in `[from, to)`.
+/// `kind`: "monotone.reset" | "monotone.reset_cursor" | "region.reset_cursor".
+pub fn verif_emit_range_release(kind: &'static str, from: Address, to: Address) {
+    crate::verif::emit(|| {
+        let t = to.as_usize();
+        format!(
+            "\"ev\":\"PRRangeRelease\",\"kind\":\"{}\",{},\"tc\":{},\"tp\":{},\"to\":{}",
+            kind,
+            page_fields(from),
+            t >> 22,
+            (t >> 12) & 1023,
+            t & 4095
+        )
+    });
+}
+
+/// Chunks handed to / taken back from a discontiguous space by the VM map.
+pub fn verif_emit_chunks(ev: &'static str, desc_index: usize, start: Address, chunks: usize) {
+    crate::verif::emit(|| {
+        format!(
+            "\"ev\":\"{}\",\"di\":{},\"c\":{},\"k\":{}",
+            ev,
+            desc_index,
+            start.as_usize() >> 22,
+            chunks.min(1 << 30)
+        )
+    });
+}
+
+/// Emit the raw page-resource counters of every space (call at a quiescent point: no acquire or
+/// release in flight).
+pub fn verif_emit_pr_counters<VM: VMBinding>(mmtk: &MMTK<VM>, at: &'static str) {
+    if !crate::verif::enabled() {
+        return;
+    }
+    let t = verif_space_table(mmtk);
+    crate::verif::emit(|| {
+        let rows: Vec<String> = t
+            .iter()
+            .filter(|s| s.has_common)
+            .map(|s| {
+                // counters are page counts; a value >= 2^30 can only be an underflow
+                format!(
+                    "{{\"sp\":\"{}\",\"r\":{},\"c\":{}}}",
+                    s.name,
+                    s.pr_reserved.min(1 << 30),
+                    s.pr_committed.min(1 << 30)
+                )
+            })
+            .collect();
+        format!(
+            "\"ev\":\"PRCounters\",\"at\":\"{}\",\"spaces\":[{}]",
+            at,
+            rows.join(",")
+        )
+    });
+}
